@@ -398,7 +398,7 @@ macro_rules! build_chain_impl {
                     Stage::FilterMap(mask) => {
                         let (v, s) = cur.filter_map(move |t: T| {
                             if mask_pass(mask, t.v) {
-                                Some(Tracked::with_tag(t.v + 100, t.tag))
+                                Some(Tracked::with_tag(t.v + 100, t.tag()))
                             } else {
                                 None
                             }
@@ -931,7 +931,9 @@ impl<'a> Oracle<'a> {
         if k >= 1 {
             if let Stage::Lim { kind: Kind::Head | Kind::Tail, pk: PK::Static | PK::StaticParts, n, .. } = self.h.chain[k - 1] {
                 self.facts.bound_checks += 1;
-                if self.replicas[k].len() > n {
+                // (while the check of another property runs, an excess between two diffs is not that property's
+                // business: the history goes on, and what the view looks like at the next Pending is judged)
+                if self.replicas[k].len() > n && self.prop == "C15" {
                     return self.div(
                         "C15",
                         format!(
